@@ -48,6 +48,9 @@ type Pipe struct {
 
 	SegMode     int
 	EOFWithData bool // last segment arrives together with the end condition
+	ZeroReads   bool // now and then a Read returns (0, nil): nothing happened, legal for an io.Reader (never twice in a row)
+	lastZero    bool
+	zeroSalt    uint64
 
 	CutAt   int // -1: none
 	CutKind int
@@ -122,6 +125,15 @@ func (p *Pipe) Read(b []byte) (int, error) {
 	if len(b) == 0 {
 		return 0, nil
 	}
+	if p.ZeroReads && p.zeroSalt == 0 {
+		p.zeroSalt = 1 + uint64(p.R.T.U32(sim.LSeg)) // one draw; which reads are empty follows from it
+	}
+	if p.ZeroReads && !p.lastZero && sim.Mix(p.zeroSalt, uint64(p.reads))%8 == 0 {
+		p.lastZero = true
+		p.R.Fault("zero_length_read")
+		return 0, nil
+	}
+	p.lastZero = false
 	avail := p.limit() - p.pos
 	if avail <= 0 {
 		p.R.D.Add(uint64(p.pos)<<8 | 0xE0)
